@@ -345,10 +345,10 @@ def cancelRoots (s : State) : Task → Bool
     shields its `finally:` and suppresses a second cancellation; `daemon_killer` is cancelled only once (by this very call);
     the ORCHESTRATOR, however, may already be stopping its ensemble — cancelled by the done-callback of a failed ensemble
     task — inside an unshielded `await aiotasks.stop(...)`: unless the variant `orchShielded`, the second cancellation reaches it -/
-def cancelRootsV (cfg : Cfg) (s : State) : Task → Bool :=
-  if cfg.orchShielded then cancelRoots s
-  else upd (cancelRoots s) (.root .orchestrator)
-    (cancelRoots s (.root .orchestrator) || (s.st (.root .orchestrator)).isStopping)
+def cancelRootsV (cfg : Cfg) (s : State) : Task → Bool
+  | .root r => cancelRoots s (.root r)
+      || (!cfg.orchShielded && decide (r = .orchestrator) && (s.st (.root .orchestrator)).isStopping)
+  | t => s.creq t
 
 /-- the orchestrator's `stop(ensemble tasks)` -/
 def cancelSubs (s : State) : Task → Bool
